@@ -4,11 +4,12 @@ import json
 checks = {
  "C02": ("pipeline-sim", "4 (C02)", "deterministic simulation: seeded schedules + end-of-stream placed at every position around the warm-up; conservation count oracle max(0,n-idle) on every output"),
  "C03": ("pipeline-sim", "4 (C03)", "deterministic simulation: seeded controller decides every channel operation of every pipeline goroutine; exact deadlock/leak census at quiescence; outputs compared with the canonical FIFO schedule"),
+ "C04": ("pipeline-sim", "4 (C04)", "deterministic simulation: producers stalled after every position with quiescence detection (causality: values delivered before later inputs exist cannot depend on them); EOF-at-cut and altered-suffix differential runs for the positions that are not prompt"),
  "C05": ("pipeline-sim", "4 (C05)", "deterministic simulation: seeded schedules + end-of-stream around the strategy warm-up; count/alphabet/Hold-through-warm-up oracle on the action stream"),
+ "C16": ("pipeline-sim", "4 (C16)", "deterministic simulation: seeded schedules, independently placed ends of the input streams, capacities; exact slice-model oracle plus exact census (longer inputs consumed, outputs closed, no task left)"),
 }
 na = {
  "C01": "pure function of inputs and configuration (value equals documented formula); no schedule, fault, clock or history in it - C03 shows outputs are schedule-independent, so simulation adds nothing; would need 61 reference formulas, i.e. a different technique",
- "C04": "not claimed yet in this revision (check under construction)",
  "C06": "pure function of the OHLCV values (decision rule on documented fields); nothing a simulator controls can change it",
  "C07": "pure transducers over action words and closing prices; their liveness with real sub-strategies is covered by C03/C05",
  "C08": "sequential state machine over two value sequences; nothing concurrent, timed or faulty decides it",
@@ -19,7 +20,6 @@ na = {
  "C13": "not claimed yet in this revision (check under construction)",
  "C14": "not claimed yet in this revision (check under construction)",
  "C15": "range/ordering of indicator values is a pure function of the inputs",
- "C16": "not claimed yet in this revision (check under construction)",
  "C17": "Ring and Bst are single-threaded in-memory data structures without I/O; an operation sequence is an input, there is no interleaving or fault to inject",
  "C18": "scale covariance is a relation between two runs on related inputs; pure function of inputs",
  "C19": "not claimed yet in this revision (check under construction)",
